@@ -20,6 +20,26 @@ theorem scheduleOnePass_of_le (len n : Nat) (hn : 1 ≤ n) (h : n ≤ len) :
   have h0 : n ≠ 0 := by omega
   simp [h0, h, List.take_replicate]
 
+theorem countdown_mem (n m : Nat) (h : m ∈ countdown n) : 1 ≤ m ∧ m ≤ n := by
+  induction n with
+  | zero => simp [countdown] at h
+  | succ n ih =>
+    simp only [countdown, List.mem_cons] at h
+    rcases h with rfl | h
+    · omega
+    · have := ih h; omega
+
+/-- every live count of the sampler's schedule is at least one when `n ≥ 1` -/
+theorem scheduleIncr_pos (k n : Nat) (hn : 1 ≤ n) : ∀ m ∈ scheduleIncr k n, 1 ≤ m := by
+  intro m hm
+  simp only [scheduleIncr, List.mem_append, List.mem_replicate] at hm
+  rcases hm with ⟨_, rfl⟩ | hm
+  · exact hn
+  · exact (countdown_mem n m hm).1
+
+theorem length_scheduleIncr (k n : Nat) : (scheduleIncr k n).length = k + n := by
+  simp [scheduleIncr, length_countdown]
+
 section field
 variable {K : Type} [Field K]
 
@@ -269,6 +289,14 @@ variable {K : Type} [Field K] [LinearOrder K] [IsStrictOrderedRing K]
 
 def Unit01 (ts : List K) : Prop := ∀ t ∈ ts, 0 < t ∧ t < 1
 
+omit [IsStrictOrderedRing K] in
+theorem unit01_of_sched (shrink : Nat → K) (hs : ∀ m, 1 ≤ m → 0 < shrink m ∧ shrink m < 1)
+    (ns : List Nat) (h : ∀ m ∈ ns, 1 ≤ m) : Unit01 (ns.map shrink) := by
+  intro t ht
+  simp only [List.mem_map] at ht
+  obtain ⟨m, hm, rfl⟩ := ht
+  exact hs m (h m hm)
+
 theorem cumprodFrom_bounds (w : K) (hw : 0 < w) (ts : List K) (h : Unit01 ts) :
     ∀ x ∈ cumprodFrom w ts, 0 < x ∧ x < w := by
   induction ts generalizing w with
@@ -438,6 +466,7 @@ theorem getLastD_nonneg (ls : List K) (hL : ∀ l ∈ ls, 0 ≤ l) : 0 ≤ ls.ge
     | none => simpa [List.getLastD_eq_getLast?, h] using hL a (by simp)
     | some x => simpa [List.getLastD_eq_getLast?, h] using hL x (List.mem_cons_of_mem _ (List.mem_of_getLast? h))
 
+omit [IsStrictOrderedRing K] in
 theorem closedL_nonneg (ls : List K) (hL : ∀ l ∈ ls, 0 ≤ l) : ∀ x ∈ closedL ls, 0 ≤ x := by
   intro x hx
   simp only [closedL, List.mem_append, List.mem_singleton] at hx
@@ -482,4 +511,12 @@ theorem weights_nonneg (ls ts : List K) (hL : ∀ l ∈ ls, 0 ≤ l) (ht : Unit0
   positivity
 
 end ordered
+
+/-- concrete data used by the `example`s of Props/C02 -/
+theorem unit01_example : Unit01 [(1 : ℚ) / 2, 2 / 3] := by
+  intro t ht; simp at ht; rcases ht with rfl | rfl <;> norm_num
+
+theorem nonneg_example : ∀ l ∈ [(0 : ℚ), 3], 0 ≤ l := by
+  intro l hl; simp at hl; rcases hl with rfl | rfl <;> norm_num
+
 end NessaiVerif.Quad
